@@ -6,7 +6,7 @@ NOTES = ("All checks are ./check <id> --tier quick|thorough (runner/vrunner.py).
          "spec/b3spec (anchored against a second Python model and the published vectors on every run).")
 
 ENGINES_DOC = [
-    {"name": "core", "path": "engines/core", "serves_properties": ["C01", "C02", "C03", "C09", "C10"],
+    {"name": "core", "path": "engines/core", "serves_properties": ["C01", "C02", "C03", "C09", "C10", "C11"],
      "kind_free_text": "Rust; drives the real blake3 crate (path dependency on /repo) with forced SIMD levels; bounded-exhaustive enumeration and explicit-state BFS over the real Hasher/OutputReader"},
 ]
 
@@ -45,6 +45,13 @@ CHECKS["C09"] = {
     "technique": "bounded-exhaustive enumeration of tree nodes, decompositions, offsets and helper arguments on the real hazmat API vs spec model",
     "text": "Every node of every tree of up to 20 (quick) / 40 (thorough) chunks is hashed through set_input_offset + six update splits + finalize_non_root and compared with the spec CV, in four modes (including new_from_context_key) at every SIMD level; every recursive decomposition of inputs up to 12 / 16 chunks is merged with merge_subtrees_non_root/_root/_root_xof; fixed power-of-two groupings up to 128 chunks; subtrees at chunk counters around 2^32, 2^33, 2^53 and 2^54-1; left_subtree_len and max_subtree_len on every argument up to 2^22 / 2^24 and around every power of two up to the end of their domains, against arithmetic definitions.",
     "note": "Trusted: b3spec. Content restricted to stream A; decompositions wider than 16 chunks rest on compositionality from the per-node check.",
+}
+
+CHECKS["C11"] = {
+    "engine": "core/adapters", "category": "fault_enumeration", "design_ref": "DESIGN.md 3/C11",
+    "technique": "deviation-bounded exhaustive enumeration of reader answer sequences and file shapes on the real adapters (environment-answer exploration)",
+    "text": "update_reader runs over a scripted Read; every sequence of answers {fill, short 1/63/1024/65535, Interrupted, hard error, early Ok(0)} with at most 4 (quick) / 5 (thorough) deviations from the default is executed (iterating the bound, so the first counterexample has the fewest deviations) on six stream lengths around the 64 KiB buffer, from empty and non-empty hashers; the oracle is the spec hash of exactly the bytes yielded, the count, the error/EOF protocol, and observational equality with update(). update_reader(File), update_mmap and update_mmap_rayon are run on regular files of every length 0..=300, 16384+-70 and around 64 KiB/1 MiB, on /proc, /dev/null, a directory, a missing path, a FIFO and an unmappable sysfs file - once normally and once with file-backed mmap forced to fail by an LD_PRELOAD interposer.",
+    "note": "Trusted: b3spec; the interposer (shims/mmapfail.c). Reader content is stream A.",
 }
 
 NOT_APPLICABLE = {("C%02d" % i): PENDING for i in range(1, 19)}
